@@ -280,7 +280,7 @@ def atoms():
          ("b''", lambda: b''), ("b'ab'", lambda: b'ab\xff'), ('np.int64', lambda: np.int64(-7)), ('np.int32', lambda: np.int32(7)),
          ('np.float64', lambda: np.float64(2.5)), ('np.float32', lambda: np.float32(2.5)), ('np.complex128', lambda: np.complex128(1j)),
          ('np.complex64', lambda: np.complex64(1 - 1j)), ('np.bool_', lambda: np.bool_(True)), ('np.False_', lambda: np.bool_(False)),
-         ('range(3)', lambda: range(3)), ('range(1,10,3)', lambda: range(1, 10, 3)), ('range(5,0,-2)', lambda: range(5, 0, -2)), ('range(0)', lambda: range(0)),
+         ('range:3', lambda: range(3)), ('range:1-10-3', lambda: range(1, 10, 3)), ('range:5-0--2', lambda: range(5, 0, -2)), ('range:0', lambda: range(0)),
          ('dtype:f8', lambda: np.dtype('f8')), ('dtype:c16', lambda: np.dtype(complex)), ('dtype:i4', lambda: np.dtype('i4')), ('dtype:bool', lambda: np.dtype(bool)),
          ('dtype:>f4', lambda: np.dtype('f4')), ('dtype:struct', lambda: np.dtype([('a', 'i4'), ('b', 'f8', (2,))])),
          ('dtype-str:U3', lambda: np.dtype('U3')), ('dtype-str:S3', lambda: np.dtype('S3'))]
